@@ -1,492 +1,95 @@
 import Log4rsModel.TimeTrigger.Lemmas
+import Log4rsModel.TimeTrigger.Historic
 /-
 C16 — Time trigger schedules the right boundary, fires once per boundary, never panics.
-Only property theorems and non-vacuity examples live here; helpers are in TimeTrigger/Lemmas.lean.
 
-Shape of the result. In a zone of constant UTC offset and inside the representable range the
-statement holds of the model of the code (boundary, strictly-after, firing, rescheduling, delay,
-no panic). The unconditional statement is false of the code: `C16_no_panic_statement_false`
-(DST overlap, absurd interval) and `C16_after_now_statement_false` (day unit on a 25-hour day);
-both negations are proved on witnesses observed on the real crate. The repaired algorithm
-(`getNextTimeFixed`, selected by `codeFixed`) satisfies the full statements in every zone:
-`C16_no_panic_fixed`, `C16_after_now_fixed`, `C16_boundary_fixed_*`, `C16_trigger_fixed`.
+Every theorem named `C16_*` is about the CURRENT code (`time.rs` since the `fix:` commit 80d997f),
+modelled by `getNextTimeFixed` / `scheduleFixed` / `stepFixed` / `runFixed` (TimeTrigger/Model.lean),
+or about the executable specification (TimeTrigger/Spec.lean). chrono is an input of the model:
+`Civil` = its decomposition of `current`, `Env.L` / `Env.now` = local and UTC seconds of `current`,
+`Env.mkL` = `Local.from_local_datetime`, `Env.naiveOf` = `NaiveDate::from_ymd_opt(..).and_hms_opt(..)`.
+The theorems about the code before the fix (and the negative witnesses of the repaired defects) are
+in TimeTrigger/Historic.lean under the names `Hist_C16_*`; they are not obligations of C16.
+
+Map of the statement:
+  strictly after now            C16_after_now_fixed, C16_next_within_n_units_subday
+  boundary, plain / modulated   C16_boundary_fixed_subday(_from_L), C16_boundary_fixed_day_week(_same_offset, _gap),
+                                C16_boundary_fixed_calendar(_any_zone); what the boundary IS: C16_expected_from_L_*,
+                                C16_plain_is_unit_boundary, C16_week_is_monday_midnight, C16_modulated_is_multiple_of_n
+  fires on first arrival ≥ schedule, reschedules to the boundary, once per boundary
+                                C16_fires_once_fixed, C16_trigger_fixed, C16_trigger_fixed_on_boundary(_day_week, _calendar),
+                                C16_fires_on_first_arrival_at_or_after_fixed, C16_no_refire_before_next_fixed,
+                                C16_schedules_strictly_increase
+  before the record is written  C16_files_meet_spec, C16_files_of_run
+  random delay                  C16_delay_bounds_fixed, C16_delay_total_fixed
+  never panics                  C16_no_panic_fixed, C16_trigger_fixed
 -/
 namespace Log4rs.TimeTrigger
 
-/-! ### second … week: pure arithmetic on local seconds -/
+/-! ### what the specification's boundary is -/
 
-/-- Units of fixed length, zone of constant offset, representable result: the schedule is exactly
-the specification's boundary — start of the current unit + n units, or with modulation the start
-of the enclosing period + (field / n + 1)·n units (week: Monday alignment through the weekday). -/
-theorem C16_boundary_fixed_units {c : Civil} {L off : Int} {mk : CivilTime → LocalResult}
-    (h : FixedOffsetView c L off mk) (u : IUnit) (hu : isCalendarUnit u = false) (n : Int) (m : Bool)
-    (hn : 1 ≤ n) (hdur : n * unitSecs u ≤ DUR_MAX)
-    (hlo : DT_MIN + 518400 ≤ truncLocal L u - off) (hhi : truncLocal L u - off + n * unitSecs u ≤ DT_MAX) :
-    getNextTime c u n m mk = .ok (expectedLocal c L u n m - off) := by
-  have hf := field_nonneg h u hu
-  have hmk := h.mk_trunc u hu
-  have hmod := incVal_mod (fieldOf c u) n
-  have hwd := h.weekday
-  generalize hq : (fieldOf c u / n + 1) * n = q at hmod
-  cases u <;> simp [isCalendarUnit] at hu <;>
-    simp only [fieldOf, unitSecs, truncLocal] at hf hdur hlo hhi hmod hq
-  · -- second
-    simp only [getNextTime, hmk, unwrapLR, bind_ok, truncLocal]
-    rw [addUnits_eq m hf hn (by decide) hdur (by simp only [DT_MIN] at hlo ⊢; omega) hhi]
-    simp only [expectedLocal, startOfPeriod, startOfUnit, fieldOf, unitSecs, hq]
-    cases m <;> simp [incVal] at hmod ⊢ <;> omega
-  · -- minute
-    simp only [getNextTime, hmk, unwrapLR, bind_ok, truncLocal]
-    rw [addUnits_eq m hf hn (by decide) hdur (by simp only [DT_MIN] at hlo ⊢; omega) hhi]
-    simp only [expectedLocal, startOfPeriod, startOfUnit, fieldOf, unitSecs, hq]
-    cases m <;> simp [incVal] at hmod ⊢ <;> omega
-  · -- hour
-    simp only [getNextTime, hmk, unwrapLR, bind_ok, truncLocal]
-    rw [addUnits_eq m hf hn (by decide) hdur (by simp only [DT_MIN] at hlo ⊢; omega) hhi]
-    simp only [expectedLocal, startOfPeriod, startOfUnit, fieldOf, unitSecs, hq]
-    cases m <;> simp [incVal] at hmod ⊢ <;> omega
-  · -- day
-    simp only [getNextTime, hmk, unwrapLR, bind_ok, truncLocal]
-    rw [addUnits_eq m hf hn (by decide) hdur (by simp only [DT_MIN] at hlo ⊢; omega) hhi]
-    simp only [expectedLocal, startOfPeriod, startOfUnit, fieldOf, unitSecs, hq]
-    cases m <;> simp [incVal] at hmod ⊢ <;> omega
-  · -- week
-    simp only [getNextTime, hmk, unwrapLR, bind_ok, truncLocal]
-    have hwr : 0 ≤ c.weekday ∧ c.weekday ≤ 6 := by omega
-    rw [addWeeks_eq m hf hn hdur hwr hlo hhi]
-    simp only [expectedLocal, startOfPeriod, startOfUnit, fieldOf, unitSecs, hq]
-    cases m <;> simp [incVal] at hmod ⊢ <;> omega
+/-- the time-of-day fields chrono reports are those of the local seconds `L` -/
+structure SubdayView (c : Civil) (L : Int) : Prop where
+  second : c.second = L % 60
+  minute : c.minute = L / 60 % 60
+  hour : c.hour = L / 3600 % 24
 
-/-- … and that boundary lies strictly after the current instant (`L - off` is `now` in UTC seconds;
-the returned instant has zero nanoseconds, so this is "strictly after" for every sub-second part) -/
-theorem C16_next_after_now_fixed_units {c : Civil} {L off : Int} {mk : CivilTime → LocalResult}
-    (h : FixedOffsetView c L off mk) (u : IUnit) (hu : isCalendarUnit u = false) (n : Int) (m : Bool)
-    (hn : 1 ≤ n) (hdur : n * unitSecs u ≤ DUR_MAX)
-    (hlo : DT_MIN + 518400 ≤ truncLocal L u - off) (hhi : truncLocal L u - off + n * unitSecs u ≤ DT_MAX) :
-    ∃ t, getNextTime c u n m mk = .ok t ∧ L - off < t := by
-  refine ⟨_, C16_boundary_fixed_units h u hu n m hn hdur hlo hhi, ?_⟩
-  have hf := field_nonneg h u hu
-  have hwd := h.weekday
-  have hs := startOfUnit_le c L u (by omega) hu
-  have hmod := incVal_mod (fieldOf c u) n
-  obtain ⟨hi1, _⟩ := incVal_bounds (f := fieldOf c u) true hn
-  have hpos : 1 ≤ unitSecs u := by cases u <;> simp [isCalendarUnit] at hu <;> decide
-  simp only [expectedLocal, startOfPeriod]
-  cases m
-  · -- plain: start + n·unit ≥ start + unit > L
-    have : 1 * unitSecs u ≤ n * unitSecs u := mul_le_of_le hn (by omega)
-    simp; omega
-  · -- modulated: (field / n + 1)·n ≥ field + 1
-    have hq : (fieldOf c u + 1) * unitSecs u ≤ (fieldOf c u / n + 1) * n * unitSecs u :=
-      mul_le_of_le (by omega) (by omega)
-    rw [Int.add_mul, Int.one_mul] at hq
-    simp; omega
+/-- Second, minute, hour: with chrono's fields being those of `L`, the specification is a function
+of the local seconds alone; in particular the enclosing period starts at the minute / hour / day
+containing `L`, not at whatever a field says. -/
+theorem C16_expected_from_L_subday {c : Civil} {L : Int} (h : SubdayView c L) (u : IUnit)
+    (hu : u = .second ∨ u = .minute ∨ u = .hour) (n : Int) (m : Bool) :
+    expectedLocal c L u n m = expectedFromL L u n m := by
+  have h1 := h.second; have h2 := h.minute; have h3 := h.hour
+  rcases hu with rfl | rfl | rfl <;> cases m <;>
+    simp [expectedLocal, expectedFromL, startOfPeriod, startOfUnit, fieldOf, unitSecs, h1, h2, h3] <;> omega
 
-/-- without modulation: exactly n units after the start of the current unit -/
-theorem C16_boundary_plain {c : Civil} {L off : Int} {mk : CivilTime → LocalResult}
-    (h : FixedOffsetView c L off mk) (u : IUnit) (hu : isCalendarUnit u = false) (n : Int)
-    (hn : 1 ≤ n) (hdur : n * unitSecs u ≤ DUR_MAX)
-    (hlo : DT_MIN + 518400 ≤ truncLocal L u - off) (hhi : truncLocal L u - off + n * unitSecs u ≤ DT_MAX) :
-    getNextTime c u n false mk = .ok (startOfUnit c L u + n * unitSecs u - off) := by
-  simpa [expectedLocal] using C16_boundary_fixed_units h u hu n false hn hdur hlo hhi
-
-/-- with modulation: the next multiple of n counted from the start of the enclosing period -/
-theorem C16_boundary_modulated {c : Civil} {L off : Int} {mk : CivilTime → LocalResult}
-    (h : FixedOffsetView c L off mk) (u : IUnit) (hu : isCalendarUnit u = false) (n : Int)
-    (hn : 1 ≤ n) (hdur : n * unitSecs u ≤ DUR_MAX)
-    (hlo : DT_MIN + 518400 ≤ truncLocal L u - off) (hhi : truncLocal L u - off + n * unitSecs u ≤ DT_MAX) :
-    getNextTime c u n true mk
-      = .ok (startOfPeriod c L u + (fieldOf c u / n + 1) * n * unitSecs u - off) := by
-  simpa [expectedLocal] using C16_boundary_fixed_units h u hu n true hn hdur hlo hhi
-
-/-! ### month and year: lexicographic order on (year, month0) -/
-
-/-- Month unit: the code asks chrono for the first of the month whose index (12·year + month0) is
-the specification's, and that month is strictly later than the current one. -/
-theorem C16_boundary_month (c : Civil) (n : Int) (m : Bool) (mk : CivilTime → LocalResult)
-    (hy : 0 ≤ c.year) (hm0 : 0 ≤ c.month0 ∧ c.month0 ≤ 11) (hn : 1 ≤ n)
-    (hb : 12 * c.year + c.month0 + n ≤ U32_MAX) :
-    getNextTime c .month n m mk = unwrapLR (mk (civilOfMonthIndex (expectedMonthIndex c .month n m)))
-      ∧ 12 * c.year + c.month0 < expectedMonthIndex c .month n m := by
-  simp only [U32_MAX] at hb
-  obtain ⟨hi1, hi2⟩ := incVal_bounds (f := c.month0) m hn
-  have hmod := incVal_mod c.month0 n
-  have hwn : wrapU32 n = n := by simp only [wrapU32]; omega
-  have hwy : wrapU32 c.year = c.year := by simp only [wrapU32]; omega
-  have hinc : (if m then bind (remU c.month0 n) (fun r => chkU32 (n - r)) else (.ok n : Out Int))
-      = .ok (incVal c.month0 n m) := by
-    cases m
-    · simp [incVal]
-    · have h1 := Int.emod_nonneg c.month0 (b := n) (by omega)
-      have h2 := Int.emod_lt_of_pos c.month0 (b := n) (by omega)
-      have hne : n ≠ 0 := by omega
-      have : 0 ≤ n - c.month0 % n ∧ n - c.month0 % n ≤ U32_MAX := by simp only [U32_MAX]; omega
-      simp [remU, hne, chkU32, this, incVal]
-      omega
-  have h12 : chkU32 (c.year * 12) = .ok (c.year * 12) := by
-    have : 0 ≤ c.year * 12 ∧ c.year * 12 ≤ U32_MAX := by simp only [U32_MAX]; omega
-    simp [chkU32, this]
-  have hnm : chkU32 (c.year * 12 + c.month0) = .ok (c.year * 12 + c.month0) := by
-    have : 0 ≤ c.year * 12 + c.month0 ∧ c.year * 12 + c.month0 ≤ U32_MAX := by simp only [U32_MAX]; omega
-    simp [chkU32, this]
-  have hnew : chkU32 (c.year * 12 + c.month0 + incVal c.month0 n m)
-      = .ok (c.year * 12 + c.month0 + incVal c.month0 n m) := by
-    have : 0 ≤ c.year * 12 + c.month0 + incVal c.month0 n m
-        ∧ c.year * 12 + c.month0 + incVal c.month0 n m ≤ U32_MAX := by simp only [U32_MAX]; omega
-    simp [chkU32, this]
-  have hidx : expectedMonthIndex c .month n m = c.year * 12 + c.month0 + incVal c.month0 n m := by
-    generalize hq : (c.month0 / n + 1) * n = q at hmod
-    cases m <;> simp [expectedMonthIndex, incVal, hq] at hmod ⊢ <;> omega
-  constructor
-  · simp only [getNextTime, hwn, hwy, hinc, bind_ok, h12, hnm, hnew, hidx, civilOfMonthIndex]
-    have hw : wrapI32 ((c.year * 12 + c.month0 + incVal c.month0 n m) / 12)
-        = (c.year * 12 + c.month0 + incVal c.month0 n m) / 12 := by
-      simp only [wrapI32]; omega
-    rw [hw]
-  · rw [hidx]; omega
-
-/-- Year unit: the code asks chrono for 1 January of the specification's year, strictly later than
-the current year. -/
-theorem C16_boundary_year (c : Civil) (n : Int) (m : Bool) (mk : CivilTime → LocalResult)
-    (hy : 0 ≤ c.year) (hm0 : 0 ≤ c.month0 ∧ c.month0 ≤ 11) (hn : 1 ≤ n) (hb : c.year + n ≤ I32_MAX) :
-    getNextTime c .year n m mk = unwrapLR (mk (civilOfMonthIndex (expectedMonthIndex c .year n m)))
-      ∧ 12 * c.year + c.month0 < expectedMonthIndex c .year n m := by
-  simp only [I32_MAX] at hb
-  obtain ⟨hi1, hi2⟩ := incVal_bounds (f := c.year) m hn
-  have hmod := incVal_mod c.year n
-  have hwn : wrapI32 n = n := by simp only [wrapI32]; omega
-  have hinc : (if m then bind (remS I32_MIN c.year n) (fun r => chkI32 (n - r)) else (.ok n : Out Int))
-      = .ok (incVal c.year n m) := by
-    cases m
-    · simp [incVal]
-    · have h1 := Int.emod_nonneg c.year (b := n) (by omega)
-      have h2 := Int.emod_lt_of_pos c.year (b := n) (by omega)
-      have hne : n ≠ 0 := by omega
-      have hm1 : n ≠ -1 := by omega
-      have : I32_MIN ≤ n - c.year % n ∧ n - c.year % n ≤ I32_MAX := by simp only [I32_MIN, I32_MAX]; omega
-      simp [remS, hne, hm1, Int.tmod_eq_emod_of_nonneg hy, chkI32, this, incVal]
-  have hnew : chkI32 (c.year + incVal c.year n m) = .ok (c.year + incVal c.year n m) := by
-    have : I32_MIN ≤ c.year + incVal c.year n m ∧ c.year + incVal c.year n m ≤ I32_MAX := by
-      simp only [I32_MIN, I32_MAX]; omega
-    simp [chkI32, this]
-  have hidx : expectedMonthIndex c .year n m = 12 * (c.year + incVal c.year n m) := by
-    generalize hq : (c.year / n + 1) * n = q at hmod
-    cases m <;> simp [expectedMonthIndex, incVal, hq] at hmod ⊢ <;> omega
-  constructor
-  · simp only [getNextTime, hwn, hinc, bind_ok, hnew, hidx, civilOfMonthIndex]
-    have h1 : 12 * (c.year + incVal c.year n m) / 12 = c.year + incVal c.year n m := by omega
-    have h2 : 12 * (c.year + incVal c.year n m) % 12 + 1 = 1 := by omega
-    rw [h1, h2]
-  · rw [hidx]; omega
-
-/-- chrono's calendar in a zone of constant offset, as far as month and year units need it: the
-first of month number `M` (months since year 0) starts at local second `monthStart M`, later
-months start later, and `with_ymd_and_hms(y, mo, 1, 0, 0, 0)` is that single instant. -/
-structure FixedOffsetCalendar (off : Int) (monthStart : Int → Int) (mk : CivilTime → LocalResult) : Prop where
-  mono : ∀ a b, a < b → monthStart a < monthStart b
-  mk_month : ∀ M, mk (civilOfMonthIndex M) = .single (monthStart M - off)
-
-/-- Month and year units: the schedule is the start of the specification's month and lies strictly
-after the current instant (`L` = local seconds of now, inside its month). -/
-theorem C16_next_after_now_calendar {off : Int} {monthStart : Int → Int} {mk : CivilTime → LocalResult}
-    (h : FixedOffsetCalendar off monthStart mk) (c : Civil) (L : Int) (u : IUnit)
-    (hu : isCalendarUnit u = true) (n : Int) (m : Bool)
-    (hy : 0 ≤ c.year) (hm0 : 0 ≤ c.month0 ∧ c.month0 ≤ 11) (hn : 1 ≤ n)
-    (hb : if u = .year then c.year + n ≤ I32_MAX else 12 * c.year + c.month0 + n ≤ U32_MAX)
-    (hin : L < monthStart (12 * c.year + c.month0 + 1)) :
-    getNextTime c u n m mk = .ok (monthStart (expectedMonthIndex c u n m) - off)
-      ∧ L - off < monthStart (expectedMonthIndex c u n m) - off := by
-  have key : getNextTime c u n m mk = unwrapLR (mk (civilOfMonthIndex (expectedMonthIndex c u n m)))
-      ∧ 12 * c.year + c.month0 < expectedMonthIndex c u n m := by
-    cases u <;> simp [isCalendarUnit] at hu
-    · exact C16_boundary_month c n m mk hy hm0 hn (by simpa using hb)
-    · exact C16_boundary_year c n m mk hy hm0 hn (by simpa using hb)
-  obtain ⟨h1, h2⟩ := key
-  refine ⟨by rw [h1, h.mk_month]; rfl, ?_⟩
-  have : monthStart (12 * c.year + c.month0 + 1) ≤ monthStart (expectedMonthIndex c u n m) := by
-    by_cases he : 12 * c.year + c.month0 + 1 = expectedMonthIndex c u n m
-    · rw [he]; exact Int.le_refl _
-    · exact Int.le_of_lt (h.mono _ _ (by omega))
+/-- … and the start of the enclosing period is the start of the minute / hour / day of `L` -/
+theorem C16_period_start_from_L {c : Civil} {L : Int} (h : SubdayView c L) :
+    startOfPeriod c L .second = L - L % 60 ∧ startOfPeriod c L .minute = L - L % 3600
+      ∧ startOfPeriod c L .hour = L - L % 86400 := by
+  have h1 := h.second; have h2 := h.minute; have h3 := h.hour
+  simp only [startOfPeriod, startOfUnit, fieldOf, unitSecs, h1, h2, h3]
   omega
 
-/-! ### no panic inside the representable range -/
+/-- Plain day and week: with the weekday being that of `L` (1970-01-01 was a Thursday) the
+specification is local midnight + n days, resp. Monday 00:00 of this week + n weeks. -/
+theorem C16_expected_from_L_day_week_plain (c : Civil) (L n : Int) (hwd : c.weekday = (L / 86400 + 3) % 7) :
+    expectedLocal c L .day n false = expectedFromL L .day n false
+      ∧ expectedLocal c L .week n false = expectedFromL L .week n false := by
+  simp [expectedLocal, expectedFromL, startOfUnit, unitSecs, hwd]
 
-/-- the multiplier fits the machine types and chrono's duration range for this unit -/
-def Representable (c : Civil) (u : IUnit) (n : Int) : Prop :=
-  match u with
-  | .month => 12 * c.year + c.month0 + n ≤ U32_MAX
-  | .year => c.year + n ≤ I32_MAX
-  | u => n * unitSecs u ≤ DUR_MAX
+/-- The plain boundary of a fixed-length unit other than the week is a whole multiple of the unit
+in local time: a full second, minute (`% 60 = 0`), hour, or local midnight. -/
+theorem C16_plain_is_unit_boundary (c : Civil) (L n : Int) (u : IUnit)
+    (hu : u = .second ∨ u = .minute ∨ u = .hour ∨ u = .day) : expectedLocal c L u n false % unitSecs u = 0 := by
+  rcases hu with rfl | rfl | rfl | rfl <;> simp only [expectedLocal, startOfUnit, unitSecs] <;> simp <;> omega
 
-/-- civil fields in the ranges chrono produces (years of the common era) -/
-structure CivilSane (c : Civil) : Prop where
-  year : 0 ≤ c.year
-  month0 : 0 ≤ c.month0 ∧ c.month0 ≤ 11
-  ordinal0 : 0 ≤ c.ordinal0
-  week0 : 0 ≤ c.week0
-  weekday : 0 ≤ c.weekday ∧ c.weekday ≤ 6
-  hour : 0 ≤ c.hour
-  minute : 0 ≤ c.minute
-  second : 0 ≤ c.second
+/-- The week boundary (plain or modulated) is a Monday, 00:00 local time, when chrono's weekday is
+that of `L`. -/
+theorem C16_week_is_monday_midnight (c : Civil) (L n : Int) (m : Bool) (hwd : c.weekday = (L / 86400 + 3) % 7) :
+    (expectedLocal c L .week n m / 86400 + 3) % 7 = 0 ∧ expectedLocal c L .week n m % 86400 = 0 := by
+  generalize hq : (c.week0 / n + 1) * n = q
+  cases m <;> simp [expectedLocal, startOfPeriod, startOfUnit, fieldOf, unitSecs, hwd, hq] <;> omega
 
-/-- If chrono never answers ambiguous/none (no DST transition at the truncated time, date in
-range) and the interval is representable, `get_next_time` does not panic — any zone, all seven
-units, both modes. -/
-theorem C16_no_panic_partial (c : Civil) (u : IUnit) (n : Int) (m : Bool) (mk : CivilTime → LocalResult)
-    (hc : CivilSane c) (hn : 1 ≤ n) (hrep : Representable c u n)
-    (hmk : ∀ q, ∃ t, mk q = .single t ∧ DT_MIN + 518400 ≤ t ∧ t + n * unitSecs u ≤ DT_MAX) :
-    ∃ t, getNextTime c u n m mk = .ok t := by
-  cases u
-  case month =>
-    obtain ⟨t, ht, _⟩ := hmk (civilOfMonthIndex (expectedMonthIndex c .month n m))
-    exact ⟨t, by rw [(C16_boundary_month c n m mk hc.year hc.month0 hn hrep).1, ht]; rfl⟩
-  case year =>
-    obtain ⟨t, ht, _⟩ := hmk (civilOfMonthIndex (expectedMonthIndex c .year n m))
-    exact ⟨t, by rw [(C16_boundary_year c n m mk hc.year hc.month0 hn hrep).1, ht]; rfl⟩
-  case week =>
-    obtain ⟨t, ht, hlo, hhi⟩ := hmk (truncated c .week)
-    simp only [unitSecs] at hhi
-    exact ⟨_, by
-      simp only [getNextTime, ht, unwrapLR, bind_ok]
-      exact addWeeks_eq m hc.week0 hn hrep hc.weekday hlo hhi⟩
-  case day =>
-    obtain ⟨t, ht, hlo, hhi⟩ := hmk (truncated c .day)
-    exact ⟨_, by
-      simp only [getNextTime, ht, unwrapLR, bind_ok]
-      exact addUnits_eq m hc.ordinal0 hn (by decide) hrep (by simp only [DT_MIN] at hlo ⊢; omega) hhi⟩
-  case hour =>
-    obtain ⟨t, ht, hlo, hhi⟩ := hmk (truncated c .hour)
-    exact ⟨_, by
-      simp only [getNextTime, ht, unwrapLR, bind_ok]
-      exact addUnits_eq m hc.hour hn (by decide) hrep (by simp only [DT_MIN] at hlo ⊢; omega) hhi⟩
-  case minute =>
-    obtain ⟨t, ht, hlo, hhi⟩ := hmk (truncated c .minute)
-    exact ⟨_, by
-      simp only [getNextTime, ht, unwrapLR, bind_ok]
-      exact addUnits_eq m hc.minute hn (by decide) hrep (by simp only [DT_MIN] at hlo ⊢; omega) hhi⟩
-  case second =>
-    obtain ⟨t, ht, hlo, hhi⟩ := hmk (truncated c .second)
-    exact ⟨_, by
-      simp only [getNextTime, ht, unwrapLR, bind_ok]
-      exact addUnits_eq m hc.second hn (by decide) hrep (by simp only [DT_MIN] at hlo ⊢; omega) hhi⟩
+/-- With modulation the boundary of second / minute / hour lies a whole multiple of `n` units after
+the start of the minute / hour / day of `L`. -/
+theorem C16_modulated_is_multiple_of_n (L n : Int) :
+    (expectedFromL L .second n true - (L - L % 60)) % n = 0
+      ∧ (expectedFromL L .minute n true - (L - L % 3600)) % (n * 60) = 0
+      ∧ (expectedFromL L .hour n true - (L - L % 86400)) % (n * 3600) = 0 := by
+  simp only [expectedFromL, if_true]
+  refine ⟨?_, ?_, ?_⟩
+  · have : L - L % 60 + (L % 60 / n + 1) * n - (L - L % 60) = (L % 60 / n + 1) * n := by omega
+    rw [this]; exact Int.mul_emod_left _ _
+  · have : L - L % 3600 + (L / 60 % 60 / n + 1) * n * 60 - (L - L % 3600) = (L / 60 % 60 / n + 1) * (n * 60) := by
+      rw [Int.mul_assoc]; omega
+    rw [this]; exact Int.mul_emod_left _ _
+  · have : L - L % 86400 + (L / 3600 % 24 / n + 1) * n * 3600 - (L - L % 86400) = (L / 3600 % 24 / n + 1) * (n * 3600) := by
+      rw [Int.mul_assoc]; omega
+    rw [this]; exact Int.mul_emod_left _ _
 
-/-! ### random delay -/
-
-/-- `TimeTrigger::new` with a random delay `d ∈ [0, max)`: the schedule is `next + d`, so it is
-not earlier than the undelayed boundary (and with `max = 0` it is the boundary itself). -/
-theorem C16_delay_bounds (next maxDelay d : Int) (hd : 0 ≤ d ∧ d < maxDelay) (hmax : maxDelay ≤ DUR_MAX)
-    (hr : DT_MIN ≤ next ∧ next + maxDelay ≤ DT_MAX) :
-    schedule (.ok next) maxDelay d = .ok (next + d) ∧ next ≤ next + d ∧ next + d < next + maxDelay := by
-  simp only [DUR_MAX, DT_MIN, DT_MAX] at *
-  have hw : wrapI64 d = d := by simp only [wrapI64]; omega
-  have hpos : maxDelay > 0 := by omega
-  refine ⟨?_, by omega, by omega⟩
-  simp only [schedule, bind_ok, hpos, if_true, hw]
-  rw [dur_ok (by simp only [DUR_MAX]; omega), bind_ok, dtAdd_ok (by simp only [DT_MIN, DT_MAX]; omega)]
-  simp
-
-theorem C16_no_delay (next : Out Int) (d : Int) : schedule next 0 d = next := by
-  cases next <;> simp [schedule, bind]
-
-/-! ### firing: exactly on the first arrival at or after the schedule, once per boundary -/
-
-/-- the specification of a run: at every arrival the trigger answers "fire" exactly when the arrival
-is at or after the instant scheduled before it; a firing replaces the schedule by an instant
-strictly after that arrival, a non-firing leaves it alone; no consultation panics. -/
-def GoodRun : Int → List Int → List (Out Bool × TState) → Prop
-  | _, [], [] => True
-  | s, a :: as, (o, st) :: os =>
-      (a < s ∧ o = .ok false ∧ st = .live s ∧ GoodRun s as os)
-      ∨ (s ≤ a ∧ o = .ok true ∧ ∃ t, st = .live t ∧ a < t ∧ GoodRun t as os)
-  | _, _, _ => False
-
-/-- Induction over the arrival list: whatever the arrival times (any order, any repetition), if
-every reschedule succeeds strictly into the future of its arrival, the run is a `GoodRun`. -/
-theorem C16_fires_once (steps : List (Int × Out Int))
-    (hfut : ∀ p ∈ steps, ∃ t, p.2 = .ok t ∧ p.1 < t) (s : Int) :
-    GoodRun s (steps.map (·.1)) (run (.live s) steps) := by
-  induction steps generalizing s with
-  | nil => simp [run, GoodRun]
-  | cons p rest ih =>
-    obtain ⟨a, r⟩ := p
-    obtain ⟨t, hr, hat⟩ := hfut (a, r) (by simp)
-    have hrest : ∀ p ∈ rest, ∃ t, p.2 = .ok t ∧ p.1 < t := fun p hp => hfut p (by simp [hp])
-    simp only at hr hat
-    subst hr
-    by_cases hge : a ≥ s
-    · have hrun : run (.live s) ((a, .ok t) :: rest) = (.ok true, .live t) :: run (.live t) rest := by
-        simp [run, step, hge]
-      rw [List.map_cons, hrun]
-      unfold GoodRun
-      exact Or.inr ⟨hge, rfl, t, rfl, hat, ih hrest t⟩
-    · have hrun : run (.live s) ((a, .ok t) :: rest) = (.ok false, .live s) :: run (.live s) rest := by
-        simp [run, step, hge]
-      rw [List.map_cons, hrun]
-      unfold GoodRun
-      exact Or.inl ⟨by omega, rfl, rfl, ih hrest s⟩
-
-/-- "The first record at or after the scheduled instant": arrivals before the schedule do not fire
-and leave it unchanged; the first one at or after it fires and moves the schedule strictly past
-itself; the rest of the history continues from the new schedule. -/
-theorem C16_fires_on_first_arrival_at_or_after (pre post : List (Int × Out Int)) (a t s : Int)
-    (hpre : ∀ p ∈ pre, p.1 < s) (ha : s ≤ a) :
-    run (.live s) (pre ++ (a, .ok t) :: post)
-      = pre.map (fun _ => (.ok false, .live s)) ++ (.ok true, .live t) :: run (.live t) post := by
-  induction pre with
-  | nil => simp [run, step, ha]
-  | cons p rest ih =>
-    have hp : ¬ p.1 ≥ s := by have := hpre p (by simp); omega
-    have hrest : ∀ q ∈ rest, q.1 < s := fun q hq => hpre q (by simp [hq])
-    simp [run, step, hp, ih hrest]
-
-/-- "Once per boundary": after a firing, no arrival before the new schedule fires again. -/
-theorem C16_no_refire_before_next (steps : List (Int × Out Int)) (t : Int) (h : ∀ p ∈ steps, p.1 < t) :
-    run (.live t) steps = steps.map (fun _ => (.ok false, .live t)) := by
-  induction steps with
-  | nil => simp [run]
-  | cons p rest ih =>
-    have hp : ¬ p.1 ≥ t := by have := h p (by simp); omega
-    simp [run, step, hp, ih (fun q hq => h q (by simp [hq]))]
-
-/-- Pre-process order: a record on which the trigger fires is the first record of a new file, the
-records before it stay in the closed file (`segment` mirrors `RollingFileAppender::append`, where
-the policy runs before the record is encoded). -/
-theorem C16_fired_record_opens_new_file (k : Nat) :
-    segment ((List.replicate k (some false)) ++ [some true])
-      = [List.range' 1 k, [k + 1]] := by
-  have gen : ∀ (k i : Nat) (cur : List Nat) (done : List (List Nat)),
-      segment.go i cur done ((List.replicate k (some false)) ++ [some true])
-        = done.reverse ++ [cur.reverse ++ List.range' i k, [i + k]] := by
-    intro k
-    induction k with
-    | zero => intro i cur done; simp [segment.go]
-    | succ k ih =>
-      intro i cur done
-      simp only [List.replicate_succ, List.cons_append, segment.go]
-      rw [ih]
-      simp [List.range'_succ, Nat.add_assoc, Nat.add_comm 1 k]
-  simpa [segment, Nat.add_comm] using gen k 1 [] []
-
-/-! ### the pieces together -/
-
-/-- the boundary is at most n units after the truncated time (used for the range of the delay) -/
-theorem C16_next_upper_bound {c : Civil} {L off : Int} {mk : CivilTime → LocalResult}
-    (h : FixedOffsetView c L off mk) (u : IUnit) (hu : isCalendarUnit u = false) (n : Int) (m : Bool)
-    (hn : 1 ≤ n) : expectedLocal c L u n m ≤ truncLocal L u + n * unitSecs u := by
-  have hwd := h.weekday
-  have hmod := incVal_mod (fieldOf c u) n
-  obtain ⟨_, hi2⟩ := incVal_bounds (f := fieldOf c u) true hn
-  have hpos : 0 ≤ unitSecs u := by cases u <;> decide
-  have hmul : incVal (fieldOf c u) n true * unitSecs u ≤ n * unitSecs u := mul_le_of_le hi2 hpos
-  have hst : startOfUnit c L u ≤ truncLocal L u := by
-    cases u <;> simp [isCalendarUnit] at hu <;> simp only [startOfUnit, truncLocal] <;> omega
-  simp only [expectedLocal, startOfPeriod]
-  cases m
-  · simp; omega
-  · have e : (fieldOf c u / n + 1) * n * unitSecs u
-        = fieldOf c u * unitSecs u + incVal (fieldOf c u) n true * unitSecs u := by
-      rw [← hmod, Int.add_mul]
-    simp only [if_true]; rw [e]; omega
-
-/-- The whole trigger in a zone of constant offset: whatever the arrival times, with every
-consultation answered from chrono's fixed-offset view of that arrival and any random delays in
-`[0, max)`, the run is a `GoodRun`: fires exactly at arrivals at or after the schedule, reschedules
-strictly later, never panics. -/
-theorem C16_trigger_in_fixed_offset_zone (u : IUnit) (hu : isCalendarUnit u = false) (n : Int) (m : Bool)
-    (hn : 1 ≤ n) (hdur : n * unitSecs u ≤ DUR_MAX) (off maxDelay : Int) (mk : CivilTime → LocalResult)
-    (hmax : 0 ≤ maxDelay ∧ maxDelay ≤ DUR_MAX) (steps : List (Int × Out Int))
-    (hsteps : ∀ p ∈ steps, ∃ (c : Civil) (d : Int), FixedOffsetView c (p.1 + off) off mk
-      ∧ DT_MIN + 518400 ≤ truncLocal (p.1 + off) u - off
-      ∧ truncLocal (p.1 + off) u - off + n * unitSecs u + maxDelay ≤ DT_MAX
-      ∧ (0 < maxDelay → 0 ≤ d ∧ d < maxDelay)
-      ∧ p.2 = schedule (getNextTime c u n m mk) maxDelay d) (s : Int) :
-    GoodRun s (steps.map (·.1)) (run (.live s) steps) := by
-  apply C16_fires_once
-  intro p hp
-  obtain ⟨c, d, hv, hlo, hhi, hd, hp2⟩ := hsteps p hp
-  have hb := C16_boundary_fixed_units hv u hu n m hn hdur hlo (by omega)
-  obtain ⟨t, ht, hlt⟩ := C16_next_after_now_fixed_units hv u hu n m hn hdur hlo (by omega)
-  have hub := C16_next_upper_bound hv u hu n m hn
-  have htr : truncLocal (p.1 + off) u ≤ p.1 + off := by
-    cases u <;> simp only [truncLocal] <;> omega
-  rw [hb] at ht
-  cases ht
-  rw [hp2, hb]
-  by_cases hz : 0 < maxDelay
-  · obtain ⟨hd0, hd1⟩ := hd hz
-    obtain ⟨e, _, _⟩ := C16_delay_bounds (expectedLocal c (p.1 + off) u n m - off) maxDelay d ⟨hd0, hd1⟩ hmax.2
-      ⟨by simp only [DT_MIN] at hlo ⊢; omega, by omega⟩
-    exact ⟨_, e, by omega⟩
-  · have : maxDelay = 0 := by omega
-    subst this
-    exact ⟨_, C16_no_delay _ d, by omega⟩
-
-/-! ### the unconditional statements, and why they are false of the code -/
-
-/-- "None of this panics for any time zone, daylight-saving transition or configured interval." -/
-def C16_no_panic_statement : Prop :=
-  ∀ (c : Civil) (u : IUnit) (n : Int) (m : Bool) (mk : CivilTime → LocalResult), CivilSane c → 1 ≤ n →
-    ∃ t, getNextTime c u n m mk = .ok t
-
-/-- chrono's decomposition of 2026-10-25 02:30:00 local in Europe/Berlin (either occurrence) -/
-def berlinOverlap : Civil := ⟨2026, 9, 25, 297, 42, 6, 2, 30, 0⟩
-/-- `Local.with_ymd_and_hms(2026, 10, 25, 2, 0, 0)` under TZ=Europe/Berlin, as observed -/
-def berlinOverlapMk : CivilTime → LocalResult := fun q =>
-  if q = ⟨2026, 10, 25, 2, 0, 0⟩ then .ambiguous 1792886400 1792890000 else .none
-
-/-- F9 on its witness: 1-hour interval, any record between 02:00 and 03:00 (twice) on the day the
-clocks go back: `unwrap` of an ambiguous local time panics. -/
-theorem C16_panics_in_dst_overlap :
-    getNextTime berlinOverlap .hour 1 false berlinOverlapMk = .panic "mk-ambiguous" := by decide
-
-/-- an absurd interval: `Duration::seconds(i64::MAX)` is outside chrono's range -/
-theorem C16_panics_on_absurd_interval (c : Civil) (t : Int) :
-    getNextTime c .second I64_MAX false (fun _ => .single t) = .panic "duration" := by
-  simp [getNextTime, unwrapLR, incI64, dur, I64_MAX, I64_MIN, DUR_MAX]
-
-theorem C16_no_panic_statement_false : ¬ C16_no_panic_statement := by
-  intro h
-  obtain ⟨t, ht⟩ := h berlinOverlap .hour 1 false berlinOverlapMk
-    ⟨by decide, by decide, by decide, by decide, by decide, by decide, by decide, by decide⟩ (by decide)
-  rw [C16_panics_in_dst_overlap] at ht
-  cases ht
-
-/-- "The next scheduled rotation lies strictly after the current instant", for the day unit in an
-arbitrary zone: all that is known of the zone is that today's local midnight resolves to a single
-instant `time` not after `now`, and that a local day lasts at most 25 hours. -/
-def C16_after_now_statement : Prop :=
-  ∀ (c : Civil) (n : Int) (m : Bool) (mk : CivilTime → LocalResult) (time now : Int), CivilSane c → 1 ≤ n →
-    mk (truncated c .day) = .single time → time ≤ now → now < time + 90000 →
-    ∀ t, getNextTime c .day n m mk = .ok t → now < t
-
-/-- chrono's decomposition of 2026-10-25 23:30:00 CET in Europe/Berlin (a 25-hour day) -/
-def berlinLongDay : Civil := ⟨2026, 9, 25, 297, 42, 6, 23, 30, 0⟩
-/-- midnight of that day is 2026-10-24T22:00:00Z (CEST) -/
-def berlinLongDayMk : CivilTime → LocalResult := fun q =>
-  if q = ⟨2026, 10, 25, 0, 0, 0⟩ then .single 1792879200 else .none
-
-/-- F12 on its witness: now = 2026-10-25T22:30:00Z, the schedule is 22:00:00Z — half an hour ago. -/
-theorem C16_day_schedule_not_after_now :
-    getNextTime berlinLongDay .day 1 false berlinLongDayMk = .ok 1792965600 ∧ ¬ (1792967400 < (1792965600 : Int)) := by
-  decide
-
-theorem C16_after_now_statement_false : ¬ C16_after_now_statement := by
-  intro h
-  have := h berlinLongDay 1 false berlinLongDayMk 1792879200 1792967400
-    ⟨by decide, by decide, by decide, by decide, by decide, by decide, by decide, by decide⟩
-    (by decide) (by decide) (by decide) (by decide) 1792965600 C16_day_schedule_not_after_now.1
-  omega
-
-/-- the consequence for the trigger: with a schedule that is not after now, every record fires
-(records at 23:30:10, 23:30:20 CET both roll the file; compare `C16_no_refire_before_next`) -/
-theorem C16_fires_on_every_record_on_long_day :
-    (run (.live 1792965600) [(1792967410, .ok 1792965600), (1792967420, .ok 1792965600)]).map (·.1)
-      = [.ok true, .ok true] := by decide
-
-/-! ### the repaired code (`getNextTimeFixed`, `scheduleFixed`, `runFixed`): the full statements
-
-The statements that are false of the current code (`C16_no_panic_statement`,
-`C16_after_now_statement`) hold of the repaired algorithm without any hypothesis on the zone. -/
+/-! ### no panic, strictly after now: the full statements, every zone -/
 
 /-- FULL no-panic statement for the repaired code: every civil decomposition, every answer of
 chrono (any zone, any DST transition), every unit, every multiplier (even below 1), both modes. -/
@@ -562,19 +165,43 @@ theorem C16_boundary_fixed_subday (c : Civil) (e : Env) (off : Int) (u : IUnit)
     simp only [expectedLocal, startOfPeriod, startOfUnit, fieldOf, unitSecs, hq]
     cases m <;> simp [incVal] at hmod ⊢ <;> omega
 
-/-- Day and week in ANY zone: unless the boundary's local time falls in a DST gap, the schedule is
-an instant chrono offers for exactly the specification's local boundary (local midnight, Monday
-aligned for weeks) — or "never" if that instant were not after `current`. -/
-theorem C16_boundary_fixed_day_week (c : Civil) (e : Env) (u : IUnit) (hu : u = .day ∨ u = .week)
+/-- the same, with the boundary read off the local seconds alone -/
+theorem C16_boundary_fixed_subday_from_L (c : Civil) (e : Env) (off : Int) (u : IUnit)
+    (hu : u = .second ∨ u = .minute ∨ u = .hour) (n : Int) (m : Bool) (hn : 1 ≤ n)
+    (hv : SubdayView c e.L) (hnow : e.now = e.L - off) (hdur : n * unitSecs u ≤ DUR_MAX)
+    (hlo : DT_MIN ≤ e.now) (hhi : e.now + n * unitSecs u ≤ DT_MAX) :
+    getNextTimeFixed c e u n m = .ok (expectedFromL e.L u n m - off) := by
+  rw [← C16_expected_from_L_subday hv u hu n m]
+  exact C16_boundary_fixed_subday c e off u hu n m hn hv.second hv.minute hv.hour hnow hdur hlo hhi
+
+/-- Liveness for hour, minute, second in ANY zone: the schedule is never "never" — it lies in
+`(now, now + n units]`. -/
+theorem C16_next_within_n_units_subday (c : Civil) (e : Env) (off : Int) (u : IUnit)
+    (hu : u = .second ∨ u = .minute ∨ u = .hour) (n : Int) (m : Bool) (hn : 1 ≤ n)
+    (hv : SubdayView c e.L) (hnow : e.now = e.L - off) (hdur : n * unitSecs u ≤ DUR_MAX)
+    (hlo : DT_MIN ≤ e.now) (hhi : e.now + n * unitSecs u ≤ DT_MAX) :
+    ∃ t, getNextTimeFixed c e u n m = .ok t ∧ e.now < t ∧ t ≤ e.now + n * unitSecs u := by
+  refine ⟨_, C16_boundary_fixed_subday c e off u hu n m hn hv.second hv.minute hv.hour hnow hdur hlo hhi, ?_, ?_⟩
+  all_goals
+    rw [expectedLocal_eq]
+    obtain ⟨hi1, hi2⟩ := incVal_bounds (f := fieldOf c u) m hn
+    have hpos : 0 ≤ unitSecs u := by cases u <;> decide
+    have h1 : 1 * unitSecs u ≤ incVal (fieldOf c u) n m * unitSecs u := mul_le_of_le hi1 hpos
+    have h2 : incVal (fieldOf c u) n m * unitSecs u ≤ n * unitSecs u := mul_le_of_le hi2 hpos
+    rcases hu with rfl | rfl | rfl <;> simp only [startOfUnit, unitSecs] at h1 h2 ⊢ <;> omega
+
+/-- Day and week, the core: in ANY zone and for whatever chrono answers, the code resolves exactly
+the specification's local boundary (local midnight, Monday-aligned for weeks, counted as the
+statement says) with `resolve_after`, and answers "never" only if that yields nothing after
+`current`. -/
+theorem C16_day_week_resolves_boundary (c : Civil) (e : Env) (u : IUnit) (hu : u = .day ∨ u = .week)
     (n : Int) (m : Bool) (hn : 1 ≤ n) (hf : 0 ≤ fieldOf c u) (hwd : 0 ≤ c.weekday ∧ c.weekday ≤ 6)
     (hdur : n * unitSecs u ≤ DUR_MAX)
-    (hlo : DT_MIN + 518400 ≤ e.L - e.L % 86400) (hhi : e.L + n * unitSecs u ≤ DT_MAX)
-    (hgap : e.mkL (expectedLocal c e.L u n m) ≠ .none) :
-    ∃ t, Occurrence e.mkL (expectedLocal c e.L u n m) t
-      ∧ getNextTimeFixed c e u n m = .ok (if t > e.now then t else FAR) := by
+    (hlo : DT_MIN + 518400 ≤ e.L - e.L % 86400) (hhi : e.L + n * unitSecs u ≤ DT_MAX) :
+    getNextTimeFixed c e u n m = .ok (match resolveAfter e.mkL e.now 200 (expectedLocal c e.L u n m) with
+      | some t => if t > e.now then t else FAR
+      | none => FAR) := by
   have htgt := target_day_week c e.L u hu n m
-  obtain ⟨t, hres, hocc⟩ := resolveAfter_occurrence (now := e.now) 199 hgap
-  refine ⟨t, hocc, ?_⟩
   obtain ⟨hi1, hi2⟩ := incVal_bounds (f := fieldOf c u) m hn
   simp only [DUR_MAX, DT_MIN, DT_MAX] at hdur hlo hhi
   have hnb : n ≤ I64_MAX := by
@@ -587,8 +214,10 @@ theorem C16_boundary_fixed_day_week (c : Civil) (e : Env) (u : IUnit) (hu : u = 
         ∧ e.L - e.L % 86400 + incVal c.ordinal0 n m * 86400 ≤ DT_MAX := by simp only [DT_MIN, DT_MAX]; omega
     rw [htgt] at hr
     simp only [getNextTimeFixed, checkedNextFixed, incFixed_eq m hn hf hnb, midnightPlus, hsp, bind_ok, hr,
-      and_self, if_true, htgt, hres]
-    split <;> rfl
+      and_self, if_true, htgt]
+    cases resolveAfter e.mkL e.now 200 (expectedLocal c e.L IUnit.day n m) with
+    | none => rfl
+    | some t => simp only []; split <;> rfl
   · -- week
     simp only [if_true] at htgt
     have h7 : inI64 (incVal c.week0 n m * 7) = true ∧ inI64 (incVal c.week0 n m * 7 - c.weekday) = true := by
@@ -600,8 +229,48 @@ theorem C16_boundary_fixed_day_week (c : Civil) (e : Env) (u : IUnit) (hu : u = 
       simp only [DT_MIN, DT_MAX]; omega
     rw [htgt] at hr
     simp only [getNextTimeFixed, checkedNextFixed, incFixed_eq m hn hf hnb, h7, and_self, if_true, midnightPlus,
-      hsp, bind_ok, hr, htgt, hres]
-    split <;> rfl
+      hsp, bind_ok, hr, htgt]
+    cases resolveAfter e.mkL e.now 200 (expectedLocal c e.L IUnit.week n m) with
+    | none => rfl
+    | some t => simp only []; split <;> rfl
+
+/-- Day and week where the boundary's local time exists: the schedule is chrono's instant for
+exactly that local time — for an ambiguous one (DST overlap) the first of chrono's two instants if
+it is after `current`, else the second (`resolve1`). -/
+theorem C16_boundary_fixed_day_week (c : Civil) (e : Env) (u : IUnit) (hu : u = .day ∨ u = .week)
+    (n : Int) (m : Bool) (hn : 1 ≤ n) (hf : 0 ≤ fieldOf c u) (hwd : 0 ≤ c.weekday ∧ c.weekday ≤ 6)
+    (hdur : n * unitSecs u ≤ DUR_MAX)
+    (hlo : DT_MIN + 518400 ≤ e.L - e.L % 86400) (hhi : e.L + n * unitSecs u ≤ DT_MAX)
+    (hgap : e.mkL (expectedLocal c e.L u n m) ≠ .none) :
+    ∃ t, resolve1 e.now (e.mkL (expectedLocal c e.L u n m)) = some t
+      ∧ getNextTimeFixed c e u n m = .ok (if t > e.now then t else FAR) := by
+  rw [C16_day_week_resolves_boundary c e u hu n m hn hf hwd hdur hlo hhi,
+    show (200 : Nat) = 199 + 1 from rfl, resolveAfter_resolve1 199 hgap]
+  cases hm : e.mkL (expectedLocal c e.L u n m) with
+  | single t => exact ⟨t, rfl, rfl⟩
+  | ambiguous a b => exact ⟨_, rfl, rfl⟩
+  | none => exact absurd hm hgap
+
+/-- Day and week where the boundary's local time falls in a DST gap of `k` quarter-hours: the
+schedule is chrono's instant for the first local time after the gap that exists (in 15-minute
+steps) — not "never". -/
+theorem C16_boundary_fixed_day_week_gap (c : Civil) (e : Env) (u : IUnit) (hu : u = .day ∨ u = .week)
+    (n : Int) (m : Bool) (hn : 1 ≤ n) (hf : 0 ≤ fieldOf c u) (hwd : 0 ≤ c.weekday ∧ c.weekday ≤ 6)
+    (hdur : n * unitSecs u ≤ DUR_MAX)
+    (hlo : DT_MIN + 518400 ≤ e.L - e.L % 86400) (hhi : e.L + n * unitSecs u ≤ DT_MAX)
+    (k : Nat) (hk : k < 200)
+    (hnone : ∀ j : Nat, j < k → e.mkL (expectedLocal c e.L u n m + 900 * j) = .none)
+    (hrange : ∀ j : Nat, j < k → DT_MIN ≤ expectedLocal c e.L u n m + 900 * (j + 1)
+      ∧ expectedLocal c e.L u n m + 900 * (j + 1) ≤ DT_MAX)
+    (hex : e.mkL (expectedLocal c e.L u n m + 900 * k) ≠ .none) :
+    ∃ t, resolve1 e.now (e.mkL (expectedLocal c e.L u n m + 900 * k)) = some t
+      ∧ getNextTimeFixed c e u n m = .ok (if t > e.now then t else FAR) := by
+  rw [C16_day_week_resolves_boundary c e u hu n m hn hf hwd hdur hlo hhi,
+    resolveAfter_gap k 200 _ hk hnone hrange hex]
+  cases hm : e.mkL (expectedLocal c e.L u n m + 900 * k) with
+  | single t => exact ⟨t, rfl, rfl⟩
+  | ambiguous a b => exact ⟨_, rfl, rfl⟩
+  | none => exact absurd hm hex
 
 /-- … and where the offset does not change in between (chrono resolves the boundary's local time
 with the offset `off` of `current`) the schedule is that boundary, in UTC seconds. -/
@@ -612,35 +281,42 @@ theorem C16_boundary_fixed_day_week_same_offset (c : Civil) (e : Env) (off : Int
     (hnow : e.now = e.L - off)
     (hmk : e.mkL (expectedLocal c e.L u n m) = .single (expectedLocal c e.L u n m - off)) :
     getNextTimeFixed c e u n m = .ok (expectedLocal c e.L u n m - off) := by
-  obtain ⟨t, hocc, hres⟩ := C16_boundary_fixed_day_week c e u hu n m hn hf hwd hdur hlo hhi (by rw [hmk]; simp)
-  have ht : t = expectedLocal c e.L u n m - off := by
-    rcases hocc with h | ⟨a, b, h, _⟩
-    · rw [hmk] at h; cases h; rfl
-    · rw [hmk] at h; cases h
+  obtain ⟨t, ht, hres⟩ := C16_boundary_fixed_day_week c e u hu n m hn hf hwd hdur hlo hhi (by rw [hmk]; simp)
+  rw [hmk] at ht
+  simp only [resolve1, Option.some.injEq] at ht
   subst ht
-  -- the boundary is after `current` in local time
   have hgt : expectedLocal c e.L u n m > e.L := by
     obtain ⟨hi1, _⟩ := incVal_bounds (f := fieldOf c u) m hn
     rw [← target_day_week c e.L u hu n m]
     rcases hu with rfl | rfl <;> simp [fieldOf] at hi1 ⊢ <;> omega
   rw [hres, if_pos (by omega)]
 
-/-- Month and year in any zone where the target date exists and is not in a gap: the schedule is
-an instant chrono offers for local midnight of the first of the specification's month. With the
-same offset as `current` (`hmk`) and a calendar in which a later month starts later (`hlater`) it is
-exactly that boundary. -/
-theorem C16_boundary_fixed_calendar (c : Civil) (e : Env) (off : Int) (u : IUnit)
-    (hu : isCalendarUnit u = true) (n : Int) (m : Bool) (hn : 1 ≤ n)
-    (hy : 0 ≤ c.year) (hm0 : 0 ≤ c.month0 ∧ c.month0 ≤ 11) (hb : c.year + n ≤ I32_MAX)
-    (lt : Int) (hnaive : e.naiveOf (civilOfMonthIndex (expectedMonthIndex c u n m)) = some lt)
-    (hmk : e.mkL lt = .single (lt - off)) (hnow : e.now = e.L - off) (hlater : e.L < lt) :
-    getNextTimeFixed c e u n m = .ok (lt - off) := by
+/-- the week schedule of the previous theorem, rendered in local time, is a Monday 00:00 when
+chrono's weekday is that of `L` -/
+theorem C16_week_schedule_is_monday_midnight (c : Civil) (e : Env) (off : Int) (n : Int) (m : Bool) (hn : 1 ≤ n)
+    (hf : 0 ≤ c.week0) (hwdL : c.weekday = (e.L / 86400 + 3) % 7) (hdur : n * 604800 ≤ DUR_MAX)
+    (hlo : DT_MIN + 518400 ≤ e.L - e.L % 86400) (hhi : e.L + n * 604800 ≤ DT_MAX) (hnow : e.now = e.L - off)
+    (hmk : e.mkL (expectedLocal c e.L .week n m) = .single (expectedLocal c e.L .week n m - off)) :
+    ∃ t, getNextTimeFixed c e .week n m = .ok t ∧ ((t + off) / 86400 + 3) % 7 = 0 ∧ (t + off) % 86400 = 0 := by
+  refine ⟨_, C16_boundary_fixed_day_week_same_offset c e off .week (Or.inr rfl) n m hn hf (by omega) hdur hlo hhi hnow hmk, ?_⟩
+  have := C16_week_is_monday_midnight c e.L n m hwdL
+  rw [Int.sub_add_cancel]; exact this
+
+/-- Month and year, the core: in ANY zone the code asks chrono for local midnight of the first of
+the specification's month (`expectedMonthIndex`: `n` months / years on, or with modulation the next
+multiple of `n` counted from January / from year 0), resolves it with `resolve_after`, and answers
+"never" only if chrono has no such date or nothing after `current` comes out. -/
+theorem C16_calendar_resolves_boundary (c : Civil) (e : Env) (u : IUnit) (hu : isCalendarUnit u = true)
+    (n : Int) (m : Bool) (hn : 1 ≤ n) (hy : 0 ≤ c.year) (hm0 : 0 ≤ c.month0 ∧ c.month0 ≤ 11)
+    (hb : c.year + n ≤ I32_MAX) :
+    getNextTimeFixed c e u n m = .ok (match e.naiveOf (civilOfMonthIndex (expectedMonthIndex c u n m)) with
+      | some lt => (match resolveAfter e.mkL e.now 200 lt with
+        | some t => if t > e.now then t else FAR
+        | none => FAR)
+      | none => FAR)
+      ∧ 12 * c.year + c.month0 < expectedMonthIndex c u n m := by
   simp only [I32_MAX] at hb
   have hnb : n ≤ I64_MAX := by simp only [I64_MAX]; omega
-  have hres : resolveAfter e.mkL e.now 200 lt = some (lt - off) := by
-    show resolveAfter e.mkL e.now (199 + 1) lt = _
-    unfold resolveAfter; rw [hmk]
-  have hgt : lt - off > e.now := by omega
   cases u <;> simp [isCalendarUnit] at hu
   · -- month
     obtain ⟨hi1, hi2⟩ := incVal_bounds (f := c.month0) m hn
@@ -648,87 +324,568 @@ theorem C16_boundary_fixed_calendar (c : Civil) (e : Env) (off : Int) (u : IUnit
     have hidx : expectedMonthIndex c .month n m = incVal c.month0 n m + (c.year * 12 + c.month0) := by
       generalize hq : (c.month0 / n + 1) * n = q at hmod
       cases m <;> simp [expectedMonthIndex, incVal, hq] at hmod ⊢ <;> omega
-    rw [hidx] at hnaive
-    simp only [civilOfMonthIndex] at hnaive
     have h1 : inI64 (incVal c.month0 n m + (c.year * 12 + c.month0)) = true := by
       unfold inI64; exact decide_eq_true (by simp only [I64_MIN, I64_MAX]; omega)
     have h2 : I32_MIN ≤ (incVal c.month0 n m + (c.year * 12 + c.month0)) / 12
         ∧ (incVal c.month0 n m + (c.year * 12 + c.month0)) / 12 ≤ I32_MAX := by
       simp only [I32_MIN, I32_MAX]; omega
+    refine ⟨?_, by rw [hidx]; omega⟩
+    rw [hidx]
     simp only [getNextTimeFixed, checkedNextFixed, incFixed_eq m hn hm0.1 hnb, h1, if_true, firstOfMonth, h2,
-      and_self, hnaive, hres, bind_ok, hgt]
+      and_self, bind_ok, civilOfMonthIndex]
+    cases e.naiveOf ⟨(incVal c.month0 n m + (c.year * 12 + c.month0)) / 12,
+        (incVal c.month0 n m + (c.year * 12 + c.month0)) % 12 + 1, 1, 0, 0, 0⟩ with
+    | none => rfl
+    | some lt =>
+      simp only []
+      cases resolveAfter e.mkL e.now 200 lt with
+      | none => rfl
+      | some t => simp only []; split <;> rfl
   · -- year
     obtain ⟨hi1, hi2⟩ := incVal_bounds (f := c.year) m hn
     have hmod := incVal_mod c.year n
     have hidx : expectedMonthIndex c .year n m = (incVal c.year n m + c.year) * 12 := by
       generalize hq : (c.year / n + 1) * n = q at hmod
       cases m <;> simp [expectedMonthIndex, incVal, hq] at hmod ⊢ <;> omega
-    rw [hidx] at hnaive
-    simp only [civilOfMonthIndex] at hnaive
     have h1 : inI64 (incVal c.year n m + c.year) = true ∧ inI64 ((incVal c.year n m + c.year) * 12) = true := by
       constructor <;> (unfold inI64; exact decide_eq_true (by simp only [I64_MIN, I64_MAX]; omega))
     have h2 : I32_MIN ≤ (incVal c.year n m + c.year) * 12 / 12 ∧ (incVal c.year n m + c.year) * 12 / 12 ≤ I32_MAX := by
       simp only [I32_MIN, I32_MAX]; omega
+    refine ⟨?_, by rw [hidx]; omega⟩
+    rw [hidx]
     simp only [getNextTimeFixed, checkedNextFixed, incFixed_eq m hn hy hnb, h1, and_self, if_true, firstOfMonth, h2,
-      hnaive, hres, bind_ok, hgt]
+      bind_ok, civilOfMonthIndex]
+    cases e.naiveOf ⟨(incVal c.year n m + c.year) * 12 / 12, (incVal c.year n m + c.year) * 12 % 12 + 1, 1, 0, 0, 0⟩ with
+    | none => rfl
+    | some lt =>
+      simp only []
+      cases resolveAfter e.mkL e.now 200 lt with
+      | none => rfl
+      | some t => simp only []; split <;> rfl
 
-/-! ### the repaired trigger: fires once per boundary in every zone -/
+/-- Month and year where that local midnight exists (`lt` = chrono's naive seconds of it): the
+schedule is chrono's instant for it, chosen as `resolve1` says when it is ambiguous. -/
+theorem C16_boundary_fixed_calendar_any_zone (c : Civil) (e : Env) (u : IUnit) (hu : isCalendarUnit u = true)
+    (n : Int) (m : Bool) (hn : 1 ≤ n) (hy : 0 ≤ c.year) (hm0 : 0 ≤ c.month0 ∧ c.month0 ≤ 11)
+    (hb : c.year + n ≤ I32_MAX) (lt : Int)
+    (hnaive : e.naiveOf (civilOfMonthIndex (expectedMonthIndex c u n m)) = some lt) (hgap : e.mkL lt ≠ .none) :
+    ∃ t, resolve1 e.now (e.mkL lt) = some t ∧ getNextTimeFixed c e u n m = .ok (if t > e.now then t else FAR) := by
+  rw [(C16_calendar_resolves_boundary c e u hu n m hn hy hm0 hb).1, hnaive]
+  simp only []
+  rw [show (200 : Nat) = 199 + 1 from rfl, resolveAfter_resolve1 199 hgap]
+  cases hm : e.mkL lt with
+  | single t => exact ⟨t, rfl, rfl⟩
+  | ambiguous a b => exact ⟨_, rfl, rfl⟩
+  | none => exact absurd hm hgap
 
-/-- The whole repaired trigger, in EVERY zone and for every configuration: whatever chrono answers
-at each arrival, whatever the unit, multiplier, mode and (non-negative) random delays, and whatever
-the arrival times (before the "never" instant), the run is a `GoodRun` — it fires exactly on
-arrivals at or after the schedule, reschedules strictly after them, and never panics. -/
+/-- chrono's calendar as far as month and year units need it: the first of month number `M`
+(months since year 0) has naive local seconds `monthStart M`, and a later month starts later -/
+structure MonthStarts (e : Env) (monthStart : Int → Int) : Prop where
+  naive : ∀ M, e.naiveOf (civilOfMonthIndex M) = some (monthStart M)
+  mono : ∀ a b, a < b → monthStart a < monthStart b
+
+/-- Month and year where the offset does not change in between (chrono resolves the boundary with
+the offset `off` of `current`): the schedule is the start of the specification's month, a month
+strictly later than the current one; that it is after `current` is derived from the calendar being
+monotone and `current` lying before the start of the next month. -/
+theorem C16_boundary_fixed_calendar (c : Civil) (e : Env) (off : Int) (u : IUnit)
+    (hu : isCalendarUnit u = true) (n : Int) (m : Bool) (hn : 1 ≤ n)
+    (hy : 0 ≤ c.year) (hm0 : 0 ≤ c.month0 ∧ c.month0 ≤ 11) (hb : c.year + n ≤ I32_MAX)
+    (monthStart : Int → Int) (hcal : MonthStarts e monthStart)
+    (hin : e.L < monthStart (12 * c.year + c.month0 + 1)) (hnow : e.now = e.L - off)
+    (hmk : e.mkL (monthStart (expectedMonthIndex c u n m))
+      = .single (monthStart (expectedMonthIndex c u n m) - off)) :
+    getNextTimeFixed c e u n m = .ok (monthStart (expectedMonthIndex c u n m) - off)
+      ∧ 12 * c.year + c.month0 < expectedMonthIndex c u n m := by
+  obtain ⟨hres, hlt⟩ := C16_calendar_resolves_boundary c e u hu n m hn hy hm0 hb
+  refine ⟨?_, hlt⟩
+  have hle : monthStart (12 * c.year + c.month0 + 1) ≤ monthStart (expectedMonthIndex c u n m) := by
+    by_cases he : 12 * c.year + c.month0 + 1 = expectedMonthIndex c u n m
+    · rw [he]; exact Int.le_refl _
+    · exact Int.le_of_lt (hcal.mono _ _ (by omega))
+  rw [hres, hcal.naive]
+  simp only []
+  rw [show (200 : Nat) = 199 + 1 from rfl, resolveAfter_resolve1 199 (by rw [hmk]; simp), hmk]
+  simp only [resolve1]
+  rw [if_pos (by omega)]
+
+/-! ### random delay -/
+
+/-- `TimeTrigger::new` never panics and never wraps, whatever `max_random_delay` and whatever the
+generator returns: the schedule is the boundary plus the delay, or — when that cannot be represented
+(delay above `i64::MAX`, above chrono's duration range, or past the end of chrono's time line) — the
+undelayed boundary. -/
+theorem C16_delay_total_fixed (t maxDelay d : Int) (hd : 0 ≤ d) :
+    ∃ t', scheduleFixed (.ok t) maxDelay d = .ok t' ∧ (t' = t ∨ t' = t + d) := by
+  unfold scheduleFixed
+  rw [bind_ok]
+  split
+  · split
+    · obtain ⟨r, hr⟩ := spanFixed_no_panic (count := d) (unit := 1) (by simp only [I64_MIN]; omega)
+      rw [hr, bind_ok]
+      cases r with
+      | none => exact ⟨t, rfl, Or.inl rfl⟩
+      | some v =>
+        have hv : v = d * 1 := by
+          unfold spanFixed at hr
+          simp only [] at hr
+          repeat' split at hr
+          all_goals first | (cases hr; done) | (injection hr with h; injection h with h; exact h.symm)
+        simp only []
+        split
+        · exact ⟨t + v, rfl, Or.inr (by omega)⟩
+        · exact ⟨t, rfl, Or.inl rfl⟩
+    · exact ⟨t, rfl, Or.inl rfl⟩
+  · exact ⟨t, rfl, Or.inl rfl⟩
+
+/-- With a representable bound the delayed schedule is exactly boundary + d, `d ∈ [0, max)`. -/
+theorem C16_delay_bounds_fixed (t maxDelay d : Int) (hd : 0 ≤ d ∧ d < maxDelay) (hmax : maxDelay ≤ DUR_MAX)
+    (hr : DT_MIN ≤ t ∧ t + maxDelay ≤ DT_MAX) :
+    scheduleFixed (.ok t) maxDelay d = .ok (t + d) ∧ t ≤ t + d ∧ t + d < t + maxDelay := by
+  simp only [DUR_MAX, DT_MIN, DT_MAX] at *
+  have hpos : maxDelay > 0 := by omega
+  have hle : d ≤ I64_MAX := by simp only [I64_MAX]; omega
+  have hsp := spanFixed_ok (count := d) (unit := 1) (by omega) (by simp only [DUR_MAX]; omega)
+  have hrange : DT_MIN ≤ t + d * 1 ∧ t + d * 1 ≤ DT_MAX := by simp only [DT_MIN, DT_MAX]; omega
+  refine ⟨?_, by omega, by omega⟩
+  simp only [scheduleFixed, bind_ok, hpos, hle, if_true, hsp, hrange, and_self]
+  congr 1; omega
+
+theorem C16_no_delay_fixed (next : Out Int) (d : Int) : scheduleFixed next 0 d = next := by
+  cases next <;> simp [scheduleFixed, bind]
+
+/-! ### firing: exactly on the first arrival at or after the schedule, once per boundary -/
+
+/-- The specification of a run of the trigger. `s` is the instant scheduled before the first
+arrival; for every arrival `a` with answer `o` and schedule `st` afterwards: either `a` is before
+the schedule, the trigger answers "no" and the schedule is unchanged, or `a` is at or after it, the
+trigger answers "fire", and the new schedule is strictly after `a` and is one the relation `B`
+allows for an arrival at `a` (`B a st`: "`st` is the boundary after `a`"). No consultation panics. -/
+def GoodRunOn (B : Int → Int → Prop) : Int → List Int → List (Out Bool × Int) → Prop
+  | _, [], [] => True
+  | s, a :: as, (o, st) :: os =>
+      (a < s ∧ o = .ok false ∧ st = s ∧ GoodRunOn B s as os)
+      ∨ (s ≤ a ∧ o = .ok true ∧ a < st ∧ B a st ∧ GoodRunOn B st as os)
+  | _, _, _ => False
+
+/-- Induction over the arrival list: whatever the arrival times (any order, any repetition), if at
+every arrival the reschedule succeeds with an instant after the arrival that `B` allows, the run
+of `Trigger::trigger` is a `GoodRunOn B`. -/
+theorem C16_fires_once_fixed (B : Int → Int → Prop) (steps : List (Int × Out Int))
+    (hfut : ∀ p ∈ steps, ∃ t, p.2 = .ok t ∧ p.1 < t ∧ B p.1 t) (s : Int) :
+    GoodRunOn B s (steps.map (·.1)) (runFixed s steps) := by
+  induction steps generalizing s with
+  | nil => simp [runFixed, GoodRunOn]
+  | cons p rest ih =>
+    obtain ⟨a, r⟩ := p
+    obtain ⟨t, hr, hat, hB⟩ := hfut (a, r) (by simp)
+    have hrest : ∀ p ∈ rest, ∃ t, p.2 = .ok t ∧ p.1 < t ∧ B p.1 t := fun p hp => hfut p (by simp [hp])
+    simp only at hr hat hB
+    subst hr
+    by_cases hge : a ≥ s
+    · have hrun : runFixed s ((a, .ok t) :: rest) = (.ok true, t) :: runFixed t rest := by
+        simp [runFixed, stepFixed, hge]
+      rw [List.map_cons, hrun]
+      unfold GoodRunOn
+      exact Or.inr ⟨hge, rfl, hat, hB, ih hrest t⟩
+    · have hrun : runFixed s ((a, .ok t) :: rest) = (.ok false, s) :: runFixed s rest := by
+        simp [runFixed, stepFixed, hge]
+      rw [List.map_cons, hrun]
+      unfold GoodRunOn
+      exact Or.inl ⟨by omega, rfl, rfl, ih hrest s⟩
+
+/-- "The first record at or after the scheduled instant": arrivals before the schedule do not fire
+and leave it unchanged; the first one at or after it fires and installs its reschedule; the rest of
+the history continues from there. -/
+theorem C16_fires_on_first_arrival_at_or_after_fixed (pre post : List (Int × Out Int)) (a t s : Int)
+    (hpre : ∀ p ∈ pre, p.1 < s) (ha : s ≤ a) :
+    runFixed s (pre ++ (a, .ok t) :: post)
+      = pre.map (fun _ => (.ok false, s)) ++ (.ok true, t) :: runFixed t post := by
+  induction pre with
+  | nil => simp [runFixed, stepFixed, ha]
+  | cons p rest ih =>
+    have hp : ¬ p.1 ≥ s := by have := hpre p (by simp); omega
+    have hrest : ∀ q ∈ rest, q.1 < s := fun q hq => hpre q (by simp [hq])
+    simp [runFixed, stepFixed, hp, ih hrest]
+
+/-- "Once per boundary", first half: after a firing no arrival before the new schedule fires. -/
+theorem C16_no_refire_before_next_fixed (steps : List (Int × Out Int)) (t : Int) (h : ∀ p ∈ steps, p.1 < t) :
+    runFixed t steps = steps.map (fun _ => (.ok false, t)) := by
+  induction steps with
+  | nil => simp [runFixed]
+  | cons p rest ih =>
+    have hp : ¬ p.1 ≥ t := by have := h p (by simp); omega
+    simp [runFixed, stepFixed, hp, ih (fun q hq => h q (by simp [hq]))]
+
+/-- the schedules installed by the firings of a run, in order -/
+def firedSchedules : List (Out Bool × Int) → List Int
+  | [] => []
+  | (.ok true, st) :: rest => st :: firedSchedules rest
+  | _ :: rest => firedSchedules rest
+
+def Increasing : Int → List Int → Prop
+  | _, [] => True
+  | s, t :: ts => s < t ∧ Increasing t ts
+
+/-- "Once per boundary", second half: every firing consumes its schedule — the schedules installed
+by successive firings are strictly increasing (starting above the initial one), so no scheduled
+instant is ever fired for twice, in any order of arrivals. -/
+theorem C16_schedules_strictly_increase (B : Int → Int → Prop) :
+    ∀ (as : List Int) (s : Int) (outs : List (Out Bool × Int)), GoodRunOn B s as outs →
+      Increasing s (firedSchedules outs) := by
+  intro as
+  induction as with
+  | nil =>
+    intro s outs h
+    cases outs with
+    | nil => trivial
+    | cons _ _ => simp [GoodRunOn] at h
+  | cons a rest ih =>
+    intro s outs h
+    cases outs with
+    | nil => simp [GoodRunOn] at h
+    | cons p os =>
+      obtain ⟨o, st⟩ := p
+      unfold GoodRunOn at h
+      rcases h with ⟨_, ho, hst, hr⟩ | ⟨hs, ho, hat, _, hr⟩
+      · subst ho; subst hst
+        simpa [firedSchedules] using ih _ os hr
+      · subst ho
+        simp only [firedSchedules, Increasing]
+        exact ⟨by omega, ih st os hr⟩
+
+/-- The whole trigger in EVERY zone and for every configuration: whatever chrono answers at each
+arrival, whatever the unit, multiplier, mode and (non-negative) random delays, and whatever the
+arrival times (before the "never" instant), the run fires exactly on arrivals at or after the
+schedule, reschedules strictly after them, and never panics. (Each consultation reads the clock
+once: `e.now` is the arrival.) -/
 theorem C16_trigger_fixed (u : IUnit) (n : Int) (m : Bool) (maxDelay : Int) (steps : List (Int × Out Int))
     (hsteps : ∀ p ∈ steps, p.1 < FAR ∧ ∃ (c : Civil) (e : Env) (d : Int), e.now = p.1 ∧ 0 ≤ d
       ∧ p.2 = scheduleFixed (getNextTimeFixed c e u n m) maxDelay d) (s : Int) :
-    GoodRun s (steps.map (·.1)) (runFixed (.live s) steps) := by
-  have hfut : ∀ p ∈ steps, ∃ t, p.2 = .ok t ∧ p.1 < t := by
-    intro p hp
-    obtain ⟨hfar, c, e, d, hnow, hd, hp2⟩ := hsteps p hp
-    obtain ⟨t, ht, hlt⟩ := C16_after_now_fixed c e u n m (by omega)
-    obtain ⟨t', ht', hle⟩ := scheduleFixed_ok t maxDelay d hd
-    exact ⟨t', by rw [hp2, ht, ht'], by omega⟩
-  rw [runFixed_eq_run steps (fun p hp => let ⟨t, ht, _⟩ := hfut p hp; ⟨t, ht⟩)]
-  exact C16_fires_once steps hfut s
+    GoodRunOn (fun _ _ => True) s (steps.map (·.1)) (runFixed s steps) := by
+  apply C16_fires_once_fixed
+  intro p hp
+  obtain ⟨hfar, c, e, d, hnow, hd, hp2⟩ := hsteps p hp
+  obtain ⟨t, ht, hlt⟩ := C16_after_now_fixed c e u n m (by omega)
+  obtain ⟨t', ht', hor⟩ := C16_delay_total_fixed t maxDelay d hd
+  exact ⟨t', by rw [hp2, ht, ht'], by omega, trivial⟩
 
-/-- test (sample), the F12 witness under the repaired algorithm: Europe/Berlin 2026-10-25 23:30 CET,
-1 day: the schedule is local midnight 2026-10-26 00:00 CET = 23:00:00Z, half an hour ahead -/
-example : getNextTimeFixed berlinLongDay
+/-- END TO END for hour, minute, second in ANY zone (`off a` = the zone's UTC offset at instant `a`):
+for every arrival sequence, with chrono's time-of-day fields being those of the local seconds, the
+trigger fires exactly on the arrivals at or after the schedule and every firing installs the
+specification's boundary after that arrival — `expectedFromL`, read off the local seconds alone,
+rendered with the offset at the arrival — plus a delay in `[0, max)`. So it fires once per boundary
+and is rescheduled to the next boundary; an implementation that ever answered "never" inside the
+representable range would not satisfy this. -/
+theorem C16_trigger_fixed_on_boundary (u : IUnit) (hu : u = .second ∨ u = .minute ∨ u = .hour)
+    (n : Int) (m : Bool) (hn : 1 ≤ n) (hdur : n * unitSecs u ≤ DUR_MAX) (off : Int → Int)
+    (maxDelay : Int) (hmax : 0 ≤ maxDelay ∧ maxDelay ≤ DUR_MAX) (steps : List (Int × Out Int))
+    (hsteps : ∀ p ∈ steps, ∃ (c : Civil) (e : Env) (d : Int), e.now = p.1 ∧ e.L = p.1 + off p.1
+      ∧ SubdayView c e.L ∧ DT_MIN ≤ p.1 ∧ p.1 + n * unitSecs u + maxDelay ≤ DT_MAX
+      ∧ (0 < maxDelay → 0 ≤ d ∧ d < maxDelay)
+      ∧ p.2 = scheduleFixed (getNextTimeFixed c e u n m) maxDelay d) (s : Int) :
+    GoodRunOn (fun a t => expectedFromL (a + off a) u n m - off a ≤ t
+        ∧ t < expectedFromL (a + off a) u n m - off a + max maxDelay 1)
+      s (steps.map (·.1)) (runFixed s steps) := by
+  apply C16_fires_once_fixed
+  intro p hp
+  obtain ⟨c, e, d, hnow, hL, hv, hlo, hhi, hd, hp2⟩ := hsteps p hp
+  have hnow' : e.now = e.L - off p.1 := by omega
+  have hb := C16_boundary_fixed_subday_from_L c e (off p.1) u hu n m hn hv hnow' hdur (by omega) (by omega)
+  obtain ⟨t, ht, hlt, hub⟩ := C16_next_within_n_units_subday c e (off p.1) u hu n m hn hv hnow' hdur (by omega) (by omega)
+  rw [hb] at ht
+  cases ht
+  rw [hp2, hb, hL]
+  rw [hL] at hlt hub
+  by_cases hz : 0 < maxDelay
+  · obtain ⟨hd0, hd1⟩ := hd hz
+    obtain ⟨e1, _, _⟩ := C16_delay_bounds_fixed (expectedFromL (p.1 + off p.1) u n m - off p.1) maxDelay d ⟨hd0, hd1⟩
+      hmax.2 ⟨by simp only [DT_MIN] at hlo ⊢; omega, by omega⟩
+    exact ⟨_, e1, by omega, by omega, by omega⟩
+  · have : maxDelay = 0 := by omega
+    subst this
+    exact ⟨_, C16_no_delay_fixed _ d, by omega, by omega, by omega⟩
+
+/-- END TO END for day and week where the offset does not change between an arrival and its
+boundary (`off` = that offset; chrono resolves the boundary's local time with it), no delay: every
+firing installs exactly the specification's boundary computed from chrono's decomposition of the
+arrival instant (local midnight + n days, Monday 00:00 + n weeks, or the next multiple of n days /
+ISO weeks of the year). -/
+theorem C16_trigger_fixed_on_boundary_day_week (u : IUnit) (hu : u = .day ∨ u = .week)
+    (n : Int) (m : Bool) (hn : 1 ≤ n) (hdur : n * unitSecs u ≤ DUR_MAX) (off : Int)
+    (civ : Int → Civil) (steps : List (Int × Out Int))
+    (hsteps : ∀ p ∈ steps, ∃ (e : Env), e.now = p.1 ∧ e.L = p.1 + off
+      ∧ 0 ≤ fieldOf (civ p.1) u ∧ (0 ≤ (civ p.1).weekday ∧ (civ p.1).weekday ≤ 6)
+      ∧ DT_MIN + 518400 ≤ e.L - e.L % 86400 ∧ e.L + n * unitSecs u ≤ DT_MAX
+      ∧ e.mkL (expectedLocal (civ p.1) e.L u n m) = .single (expectedLocal (civ p.1) e.L u n m - off)
+      ∧ p.2 = scheduleFixed (getNextTimeFixed (civ p.1) e u n m) 0 0) (s : Int) :
+    GoodRunOn (fun a t => t = expectedLocal (civ a) (a + off) u n m - off)
+      s (steps.map (·.1)) (runFixed s steps) := by
+  apply C16_fires_once_fixed
+  intro p hp
+  obtain ⟨e, hnow, hL, hf, hwd, hlo, hhi, hmk, hp2⟩ := hsteps p hp
+  have hb := C16_boundary_fixed_day_week_same_offset (civ p.1) e off u hu n m hn hf hwd hdur hlo hhi (by omega) hmk
+  have hgt : expectedLocal (civ p.1) e.L u n m > e.L := by
+    obtain ⟨hi1, _⟩ := incVal_bounds (f := fieldOf (civ p.1) u) m hn
+    rw [← target_day_week (civ p.1) e.L u hu n m]
+    rcases hu with rfl | rfl <;> simp [fieldOf] at hi1 ⊢ <;> omega
+  refine ⟨_, by rw [hp2, hb, C16_no_delay_fixed], by omega, by rw [hL]⟩
+
+/-- END TO END for month and year, same reading: every firing installs the start of the
+specification's month (`monthStart` = chrono's calendar, monotone), a month after the arrival's. -/
+theorem C16_trigger_fixed_on_boundary_calendar (u : IUnit) (hu : isCalendarUnit u = true)
+    (n : Int) (m : Bool) (hn : 1 ≤ n) (off : Int) (civ : Int → Civil) (monthStart : Int → Int)
+    (steps : List (Int × Out Int))
+    (hsteps : ∀ p ∈ steps, ∃ (e : Env), e.now = p.1 ∧ e.L = p.1 + off
+      ∧ 0 ≤ (civ p.1).year ∧ (0 ≤ (civ p.1).month0 ∧ (civ p.1).month0 ≤ 11) ∧ (civ p.1).year + n ≤ I32_MAX
+      ∧ MonthStarts e monthStart ∧ e.L < monthStart (12 * (civ p.1).year + (civ p.1).month0 + 1)
+      ∧ e.mkL (monthStart (expectedMonthIndex (civ p.1) u n m))
+          = .single (monthStart (expectedMonthIndex (civ p.1) u n m) - off)
+      ∧ p.2 = scheduleFixed (getNextTimeFixed (civ p.1) e u n m) 0 0) (s : Int) :
+    GoodRunOn (fun a t => t = monthStart (expectedMonthIndex (civ a) u n m) - off
+        ∧ 12 * (civ a).year + (civ a).month0 < expectedMonthIndex (civ a) u n m)
+      s (steps.map (·.1)) (runFixed s steps) := by
+  apply C16_fires_once_fixed
+  intro p hp
+  obtain ⟨e, hnow, hL, hy, hm0, hb, hcal, hin, hmk, hp2⟩ := hsteps p hp
+  obtain ⟨hres, hlt⟩ := C16_boundary_fixed_calendar (civ p.1) e off u hu n m hn hy hm0 hb monthStart hcal hin (by omega) hmk
+  have hle : monthStart (12 * (civ p.1).year + (civ p.1).month0 + 1) ≤ monthStart (expectedMonthIndex (civ p.1) u n m) := by
+    by_cases he : 12 * (civ p.1).year + (civ p.1).month0 + 1 = expectedMonthIndex (civ p.1) u n m
+    · rw [he]; exact Int.le_refl _
+    · exact Int.le_of_lt (hcal.mono _ _ (by omega))
+  exact ⟨_, by rw [hp2, hres, C16_no_delay_fixed], by omega, rfl, hlt⟩
+
+/-! ### before the record is written: the files -/
+
+theorem consHead_ne_nil (i : Nat) (segs : List (List Nat)) : consHead i segs ≠ [] := by
+  cases segs <;> simp [consHead]
+
+theorem segmentFrom_ne_nil (i : Nat) (flags : List (Option Bool)) : segmentFrom i flags ≠ [] := by
+  cases flags with
+  | nil => simp [segmentFrom]
+  | cons f rest =>
+    induction rest generalizing i f with
+    | nil => cases f with
+      | none => simp [segmentFrom]
+      | some b => cases b <;> simp [segmentFrom, consHead]
+    | cons g rest ih =>
+      cases f with
+      | none => simpa [segmentFrom] using ih (i + 1) g
+      | some b => cases b <;> simp [segmentFrom, consHead_ne_nil]
+
+theorem consHead_flatten (i : Nat) (segs : List (List Nat)) (h : segs ≠ []) :
+    (consHead i segs).flatten = i :: segs.flatten := by
+  cases segs with
+  | nil => exact absurd rfl h
+  | cons s more => simp [consHead]
+
+theorem consHead_tail (i : Nat) (segs : List (List Nat)) (h : segs ≠ []) :
+    (consHead i segs).tail = segs.tail := by
+  cases segs with
+  | nil => exact absurd rfl h
+  | cons s more => simp [consHead]
+
+theorem consHead_head (i : Nat) (segs : List (List Nat)) : ((consHead i segs).head?).bind List.head? = some i := by
+  cases segs <;> simp [consHead]
+
+theorem segmentFrom_flatten (i : Nat) (flags : List (Option Bool)) :
+    (segmentFrom i flags).flatten = writtenFrom i flags := by
+  induction flags generalizing i with
+  | nil => simp [segmentFrom, writtenFrom]
+  | cons f rest ih =>
+    cases f with
+    | none => simpa [segmentFrom, writtenFrom] using ih (i + 1)
+    | some b =>
+      cases b <;>
+        simp [segmentFrom, writtenFrom, consHead_flatten _ _ (segmentFrom_ne_nil (i + 1) rest), ih (i + 1)]
+
+theorem segmentFrom_heads (i : Nat) (flags : List (Option Bool)) :
+    (segmentFrom i flags).tail.map List.head? = (firedFrom i flags).map some := by
+  induction flags generalizing i with
+  | nil => simp [segmentFrom, firedFrom]
+  | cons f rest ih =>
+    cases f with
+    | none => simpa [segmentFrom, firedFrom] using ih (i + 1)
+    | some b =>
+      cases b
+      · simpa [segmentFrom, firedFrom, consHead_tail _ _ (segmentFrom_ne_nil (i + 1) rest)] using ih (i + 1)
+      · have hne := segmentFrom_ne_nil (i + 1) rest
+        have := ih (i + 1)
+        cases hs : segmentFrom (i + 1) rest with
+        | nil => exact absurd hs hne
+        | cons sg more =>
+          rw [hs] at this
+          simpa [segmentFrom, firedFrom, hs, consHead] using this
+
+/-- "Before that record is written", for EVERY history (any mix of firings, non-firings, records
+lost to an error; any number of firings): the files the model of `RollingFileAppender::append`
+produces satisfy the declarative specification `filesOk` — concatenated they are exactly the written
+records in order, and the files after the oldest begin with exactly the records on which the
+trigger fired. -/
+theorem C16_files_meet_spec (flags : List (Option Bool)) : filesOk flags (segment flags) = true := by
+  have h := segmentFrom_heads 1 flags
+  rw [List.map_tail] at h
+  simp [filesOk, segment, segmentFrom_ne_nil, segmentFrom_flatten, h]
+
+/-- what the trigger's answers mean for the appender: `some fired` the record is written (after a
+roll if `fired`), `none` a panic, the record is lost -/
+def flagsOfRun (outs : List (Out Bool × Int)) : List (Option Bool) :=
+  outs.map fun p => match p.1 with
+    | .ok b => some b
+    | _ => none
+
+theorem writtenFrom_all_some (i : Nat) (flags : List (Option Bool)) (h : ∀ f ∈ flags, f ≠ none) :
+    writtenFrom i flags = List.range' i flags.length := by
+  induction flags generalizing i with
+  | nil => simp [writtenFrom]
+  | cons f rest ih =>
+    cases f with
+    | none => exact absurd rfl (h none (by simp))
+    | some b => simp [writtenFrom, List.range'_succ, ih (i + 1) (fun f hf => h f (by simp [hf]))]
+
+theorem flags_of_good_run (B : Int → Int → Prop) :
+    ∀ (as : List Int) (s : Int) (outs : List (Out Bool × Int)), GoodRunOn B s as outs →
+      (∀ f ∈ flagsOfRun outs, f ≠ none) ∧ (flagsOfRun outs).length = as.length := by
+  intro as
+  induction as with
+  | nil =>
+    intro s outs h
+    cases outs with
+    | nil => simp [flagsOfRun]
+    | cons _ _ => simp [GoodRunOn] at h
+  | cons a rest ih =>
+    intro s outs h
+    cases outs with
+    | nil => simp [GoodRunOn] at h
+    | cons p os =>
+      obtain ⟨o, st⟩ := p
+      unfold GoodRunOn at h
+      rcases h with ⟨_, ho, _, hr⟩ | ⟨_, ho, _, _, hr⟩ <;> subst ho <;>
+        · obtain ⟨h1, h2⟩ := ih _ os hr
+          refine ⟨?_, by simp [flagsOfRun] at h2 ⊢; omega⟩
+          intro f hf
+          simp only [flagsOfRun, List.map_cons, List.mem_cons] at hf
+          rcases hf with rfl | hf
+          · simp
+          · exact h1 f (by simpa [flagsOfRun] using hf)
+
+/-- The trigger's run and the files together: in a good run every record is written (none is lost),
+the files, read in order, are records 1 … k, and the files after the oldest begin with exactly the
+records whose arrival was at or after the schedule — the roll precedes the write of the record that
+fired. -/
+theorem C16_files_of_run (B : Int → Int → Prop) (steps : List (Int × Out Int))
+    (hfut : ∀ p ∈ steps, ∃ t, p.2 = .ok t ∧ p.1 < t ∧ B p.1 t) (s : Int) :
+    let flags := flagsOfRun (runFixed s steps)
+    (segment flags).flatten = List.range' 1 steps.length
+      ∧ (segment flags).tail.map List.head? = (firedFrom 1 flags).map some := by
+  have hg := C16_fires_once_fixed B steps hfut s
+  obtain ⟨h1, h2⟩ := flags_of_good_run B _ s _ hg
+  simp only [List.length_map] at h2
+  refine ⟨?_, segmentFrom_heads 1 _⟩
+  show (segmentFrom 1 _).flatten = _
+  rw [segmentFrom_flatten, writtenFrom_all_some 1 _ h1, h2]
+
+/-! ### the two clock readings of `trigger()` — a finding
+
+`Trigger::trigger` reads the clock, and when it fires, `TimeTrigger::new(self.config)` reads it
+AGAIN and schedules from that second reading. "Reschedules strictly into the future" is meant of
+the arrival that fired (the first reading). It holds when the second reading is not earlier than the
+first (`C16_reschedule_after_arrival_partial`); if the clock steps back between the two readings
+the new schedule can be at or before the arrival, and the next record fires for the same boundary
+again (`C16_reschedule_after_arrival_statement_false`, witness reproduced on the real code:
+sig `C16/second-clock-reading-earlier-than-first`). Proposed patch: pass `current` on to the
+schedule computation; `secondReadFixed` in Model.lean then selects the first reading. -/
+
+/-- the arrival read `a`; `TimeTrigger::new` read `e.now` — any value — and computed the schedule -/
+def C16_reschedule_after_arrival_statement : Prop :=
+  ∀ (a : Int) (c : Civil) (e : Env) (u : IUnit) (n : Int) (m : Bool) (maxDelay d : Int), 1 ≤ n → 0 ≤ d →
+    a < FAR → e.now < FAR → ∀ t, scheduleFixed (getNextTimeFixed c e u n m) maxDelay d = .ok t → a < t
+
+theorem C16_reschedule_after_arrival_partial (a : Int) (c : Civil) (e : Env) (u : IUnit) (n : Int) (m : Bool)
+    (maxDelay d : Int) (hd : 0 ≤ d) (hfar : e.now < FAR) (hmono : a ≤ e.now) :
+    ∃ t, scheduleFixed (getNextTimeFixed c e u n m) maxDelay d = .ok t ∧ a < t := by
+  obtain ⟨t, ht, hlt⟩ := C16_after_now_fixed c e u n m hfar
+  obtain ⟨t', ht', hor⟩ := C16_delay_total_fixed t maxDelay d hd
+  exact ⟨t', by rw [ht, ht'], by omega⟩
+
+/-- UTC, every 10 seconds; the record arrives at …15 (schedule …10: it fires), the second reading
+is …04: the new schedule is …14, not after the arrival — the record at …16 fires again. -/
+theorem C16_reschedule_after_arrival_statement_false : ¬ C16_reschedule_after_arrival_statement := by
+  intro h
+  have := h 1790000015 ⟨2026, 8, 21, 263, 38, 0, 14, 13, 24⟩
+    { L := 1790000004, now := 1790000004, naiveOf := fun _ => none, mkL := fun _ => .none }
+    .second 10 false 0 0 (by decide) (by decide) (by decide) (by decide) 1790000014 (by decide)
+  omega
+
+theorem C16_refires_after_backward_clock_step :
+    (runFixed 1790000010 [(1790000015, .ok 1790000014), (1790000016, .ok 1790000026)]).map (·.1)
+      = [.ok true, .ok true] := by decide
+
+/-! ### non-vacuity: the hypotheses hold on concrete non-trivial inputs (tests on samples) -/
+
+/-- 2024-02-29 23:59:58 local (a leap day, two seconds before the minute, day and month end) -/
+def leapEve : Civil := ⟨2024, 1, 29, 59, 8, 3, 23, 59, 58⟩
+
+example : SubdayView leapEve 1709251198 := ⟨by decide, by decide, by decide⟩
+
+/-- modulated 7 s at 23:59:58: 56 + 7 = 63 s after the start of the minute, i.e. 00:00:03 next day -/
+example : expectedFromL 1709251198 .second 7 true = 1709251203 := by decide
+
+/-- Asia/Kathmandu (+5:45): the same instant through the code's model -/
+example : getNextTimeFixed leapEve
+    { L := 1709251198, now := 1709230498, naiveOf := fun _ => none, mkL := fun _ => .none } .second 7 true
+    = .ok (1709251203 - 20700) := by decide
+
+/-- the F12 witness under the current algorithm: Europe/Berlin 2026-10-25 23:30 CET (25-hour day),
+1 day: local midnight 2026-10-26 00:00 CET = 23:00:00Z, half an hour ahead -/
+example : getNextTimeFixed ⟨2026, 9, 25, 297, 42, 6, 23, 30, 0⟩
     { L := 1792971000, now := 1792967400, naiveOf := fun _ => none,
       mkL := fun l => if l = 1792972800 then .single 1792969200 else .none } .day 1 false
     = .ok 1792969200 := by decide
 
-/-- test (sample), the F9 witness under the repaired algorithm: 02:30 CEST (first occurrence), 1 hour:
-the unit started 30 minutes ago on the UTC time line, the schedule is 01:00:00Z = 02:00 CET; chrono
-is not asked about any local time -/
-example : getNextTimeFixed berlinOverlap
+/-- the F9 witness: Berlin 02:30 CEST, first occurrence, 1 hour: the unit started 30 minutes ago on
+the UTC time line, the schedule is 01:00:00Z = 02:00 CET; chrono is not asked about a local time -/
+example : getNextTimeFixed ⟨2026, 9, 25, 297, 42, 6, 2, 30, 0⟩
     { L := 1792895400, now := 1792888200, naiveOf := fun _ => none, mkL := fun _ => .none } .hour 1 false
     = .ok 1792890000 := by decide
 
-/-- test (sample): an absurd interval saturates to "never" instead of panicking -/
-example : getNextTimeFixed berlinOverlap
-    { L := 1792895400, now := 1792888200, naiveOf := fun _ => none, mkL := fun _ => .none } .second I64_MAX false
+/-- an overlap (fold) at the target: zone `ZST1ZDT,M3.2.6/23:30,M11.1.0/0:30`, 2026-10-31 23:45 first
+pass, 1 day: local midnight is ambiguous; chrono 0.4.45 lists the later instant first, `resolve1`
+takes it (observed on the real code, corpus) -/
+example : getNextTimeFixed ⟨2026, 9, 31, 303, 43, 5, 23, 45, 0⟩
+    { L := 1793490300, now := 1793490300, naiveOf := fun _ => none,
+      mkL := fun l => if l = 1793491200 then .ambiguous 1793494800 1793491200 else .none } .day 1 false
+    = .ok 1793494800 := by decide
+
+/-- a gap at the target: same zone, 2026-03-14 23:00, 1 day: 00:00 and 00:15 do not exist, the
+schedule is chrono's instant for 00:30 (`C16_boundary_fixed_day_week_gap` with k = 2) -/
+example : getNextTimeFixed ⟨2026, 2, 14, 72, 10, 5, 23, 0, 0⟩
+    { L := 1773529200, now := 1773532800, naiveOf := fun _ => none,
+      mkL := fun l => if l = 1773534600 then .single 1773534600 else .none } .day 1 false
+    = .ok 1773534600 := by decide
+
+/-- an absurd interval saturates to "never" instead of panicking -/
+example : getNextTimeFixed leapEve
+    { L := 1709251198, now := 1709230498, naiveOf := fun _ => none, mkL := fun _ => .none } .second I64_MAX false
     = .ok FAR := by decide
 
-/-! ### non-vacuity: the hypotheses hold on concrete non-trivial inputs -/
+/-- `MonthStarts` is satisfiable (30-day months: a monotone calendar) -/
+example : MonthStarts { L := 0, now := 0, naiveOf := fun q => some ((12 * q.y + (q.mo - 1)) * 2592000), mkL := fun _ => .none }
+    (fun M => M * 2592000) :=
+  ⟨fun M => by simp only [civilOfMonthIndex]; congr 1; congr 1; omega, fun a b h => by omega⟩
 
-/-- 2024-02-29 23:59:58 UTC+5:45 (Asia/Kathmandu): L = 1709251198, a leap day, modulated 7-second
-interval crossing the minute, day and month end -/
-def kathmanduLeap : Civil := ⟨2024, 1, 29, 59, 8, 3, 23, 59, 58⟩
+/-- a history with three firings, one record lost to an error: files and declarative spec -/
+example : segment [some false, some true, some false, none, some true, some true]
+    = [[1], [2, 3], [5], [6]] := by decide
 
-example : FixedOffsetView kathmanduLeap 1709251198 20700
-    (fun q => .single ((truncLocal 1709251198
-      (if q.s ≠ 0 then .second else if q.mi ≠ 0 then .minute else if q.h ≠ 0 then .hour else .day)) - 20700)) :=
-  ⟨by decide, by decide, by decide, by decide, by decide, by decide, by
-    intro u hu; cases u <;> simp [isCalendarUnit] at hu <;> decide⟩
+example : filesOk [some false, some true, some false, none, some true, some true] [[1], [2, 3], [5], [6]] = true := by
+  decide
 
-/-- test (sample): modulated 7 s at 23:59:58 → 00:00:03 next day (56 + 7 = 63 s from the minute start) -/
-example : expectedLocal kathmanduLeap 1709251198 .second 7 true = 1709251203 := by decide
+/-- a wrong cut is rejected by the declarative spec: record 2 fired but sits in the old file -/
+example : filesOk [some false, some true, some false] [[1, 2], [3]] = false := by decide
 
-/-- test (sample): a run with two boundaries: fires at the first arrival ≥ 10, not at 12, 14, fires at 20 -/
-example : (run (.live 10) [(3, .ok 15), (11, .ok 15), (12, .ok 15), (14, .ok 15), (20, .ok 25)]).map (·.1)
+/-- a run with two boundaries: fires at the first arrival ≥ 10, not at 12, 14, fires at 20 -/
+example : (runFixed 10 [(3, .ok 15), (11, .ok 15), (12, .ok 15), (14, .ok 15), (20, .ok 25)]).map (·.1)
     = [.ok false, .ok true, .ok false, .ok false, .ok true] := by decide
-
-example : Representable kathmanduLeap .month 61 := by simp [Representable, kathmanduLeap, U32_MAX]
 
 end Log4rs.TimeTrigger
